@@ -88,7 +88,10 @@ def signature(rec, verdict, st, o=None):
 def run(tier):
     rep = vlib.Report("C13", tier)
     wd = vlib.workdir("c13")
-    types = ["d", "z"] if tier == "quick" else ["s", "d", "c", "z"]
+    types = ["s", "d", "c", "z"]
+    # quick: the single-precision types run the vector operations only (their matrix operations are in the thorough tier)
+    light_ops = {"dot", "asum", "nrm2", "iamax", "axpy", "scal", "copy", "swap"}
+    light_types = {"s", "c"} if tier == "quick" else set()
     seed = vlib.seed()
     src = os.path.join(vlib.HARNESS, "replay_blas.cpp")
     probe = os.path.join(vlib.HARNESS, "replay_blas_probe.cpp")
@@ -118,7 +121,8 @@ def run(tier):
     # ---- 3. one replayer per element type and operation group; a group that does not compile for an element type is an
     #         observation ("nocompile"), judged like any other rejection by Blas.tla
     groups = sorted(set(GROUP.values()))
-    exes = {(t, g): os.path.join(wd, "replay_blas_%s_%d" % (t, g)) for t in types for g in groups}
+    light_groups = {GROUP[o] for o in light_ops}
+    exes = {(t, g): os.path.join(wd, "replay_blas_%s_%d" % (t, g)) for t in types for g in groups if t not in light_types or g in light_groups}
     keys = sorted(exes)
     jobs = [(src, exes[k2], ["-DC13_ELT=" + ELT[k2[0]], "-DC13_OPS=%d" % k2[1]] + ["-DC13_F_" + f for f in feats[k2[0]]], ["-lopenblas"]) for k2 in keys]
     cres = vlib.compile_many(jobs)
@@ -131,7 +135,7 @@ def run(tier):
             notbuilt["%s/%d" % k2] = (errs[0] if errs else text[-300:])[:400]
     rep.notes["groups_that_do_not_compile"] = notbuilt
     for t in types:
-        if sum(1 for g in groups if (t, g) in built) < len(groups) - 2:
+        if sum(1 for g in groups if (t, g) in built) < len([g for g in groups if (t, g) in exes]) - 2:
             raise vlib.Broken("replay_blas.cpp does not compile for %s: %s" % (t, notbuilt))
 
     res = gen_f.result()
@@ -142,6 +146,8 @@ def run(tier):
         if key in seen:
             continue
         seen.add(key)
+        if rec["ty"] in light_types and rec["op"] not in light_ops:
+            continue
         cases.append(rec)
     cases.sort(key=lambda r: json.dumps(r, sort_keys=True))   # TLC's output order depends on worker scheduling; case ids (and data seeds) must not
     os.remove(res.out_path)
@@ -244,7 +250,7 @@ def run(tier):
     good_by = collections.Counter()
     for (op, form, ty), cnt in per.items():
         good_by[(op, ty)] += cnt["good"]
-    missing = [(op, ty) for op in REC_OPS for ty in types if good_by[(op, ty)] == 0 and (ty, GROUP[op]) in built]
+    missing = [(op, ty) for op in REC_OPS for ty in types if good_by[(op, ty)] == 0 and (ty, GROUP[op]) in built and not (ty in light_types and op not in light_ops)]
     if missing:
         raise vlib.Broken("operations never validated (no good verdict): %s" % missing)
     for op, want in (("gemm", ["ta=N", "ta=T", "ta=H", "tb=N", "tb=T", "tb=H", "tc=N", "tc=T", "pa=c", "pa=p", "pc=p"]),
